@@ -71,6 +71,20 @@ func (r *roundRobin) next(e *exec) (sid, bool) {
 	return sid{}, false
 }
 
+// postersFirst: every poster runs to the end of its programme, then fair round-robin until
+// nobody can step (no cap on the length of the schedule)
+func postersFirst() chooser {
+	rr := &roundRobin{}
+	return func(e *exec, k int) (sid, bool) {
+		for _, th := range e.posters {
+			if e.enabled(th) {
+				return e.sidOfThread(th), true
+			}
+		}
+		return rr.next(e)
+	}
+}
+
 type policy struct {
 	stick     float64 // weight multiplier of the thread that ran last
 	race      float64 // multiplier of threads standing in a race window
@@ -250,6 +264,11 @@ func genConfig(r *rand.Rand) (config, []string) {
 			break
 		}
 	}
+	c.throughput = 99
+	if r.Intn(3) == 0 {
+		c.throughput = r.Intn(4)
+		tags = append(tags, "cfg-small-throughput")
+	}
 	return c, tags
 }
 
@@ -372,28 +391,33 @@ func dfsSpecs(tier string) []dfsSpec {
 	T, F := true, false
 	if tier != "thorough" {
 		return []dfsSpec{
-			{"1x1", config{[][]pmsg{{u(1)}}, nil}, -1, 60, 50},
-			{"1x2", config{[][]pmsg{{u(1), u(2)}}, nil}, 3, 60, 400},
-			{"2x1", config{[][]pmsg{{u(1)}, {u(11)}}, nil}, 2, 60, 5000},
-			{"1x2+pause", config{[][]pmsg{{u(1), u(2)}}, []bool{F, F, T}}, 2, 60, 5000},
-			{"2x1-sys", config{[][]pmsg{{o(1)}, {u(11)}}, nil}, 2, 60, 5000},
-			{"suspend-resume", config{[][]pmsg{{mS, u(1)}, {mR}}, nil}, 1, 60, 200},
+			{"1x1", config{[][]pmsg{{u(1)}}, nil, 99}, -1, 60, 50},
+			{"1x2", config{[][]pmsg{{u(1), u(2)}}, nil, 99}, 3, 60, 400},
+			{"2x1", config{[][]pmsg{{u(1)}, {u(11)}}, nil, 99}, 2, 60, 5000},
+			{"1x2+pause", config{[][]pmsg{{u(1), u(2)}}, []bool{F, F, T}, 99}, 2, 60, 5000},
+			{"2x1-sys", config{[][]pmsg{{o(1)}, {u(11)}}, nil, 99}, 2, 60, 5000},
+			{"suspend-resume", config{[][]pmsg{{mS, u(1)}, {mR}}, nil, 99}, 1, 60, 200},
+			{"1x3-throughput0", config{[][]pmsg{{u(1), u(2), u(3)}}, nil, 0}, 1, 60, 300},
+			{"2x2-throughput1", config{[][]pmsg{{u(1), u(2)}, {u(11), u(12)}}, nil, 1}, 1, 60, 600},
 		}
 	}
 	return []dfsSpec{
-		{"1x1", config{[][]pmsg{{u(1)}}, nil}, -1, 80, 1000},
-		{"1x2", config{[][]pmsg{{u(1), u(2)}}, nil}, -1, 80, 60000},
-		{"1xsys", config{[][]pmsg{{o(1), u(2)}}, nil}, -1, 80, 30000},
-		{"2x1", config{[][]pmsg{{u(1)}, {u(11)}}, nil}, 3, 80, 30000},
-		{"2x1-sys", config{[][]pmsg{{o(1)}, {u(11)}}, nil}, 3, 80, 30000},
-		{"2xsys", config{[][]pmsg{{o(1)}, {o(11)}}, nil}, 3, 80, 30000},
-		{"1x2+pause", config{[][]pmsg{{u(1), u(2)}}, []bool{F, F, T}}, 3, 80, 20000},
-		{"1x1+pause-first", config{[][]pmsg{{u(1), u(2)}}, []bool{T}}, 3, 80, 20000},
-		{"2x1+pause", config{[][]pmsg{{u(1)}, {u(11)}}, []bool{F, T}}, 2, 80, 20000},
-		{"suspend-resume", config{[][]pmsg{{mS, u(1)}, {mR}}, nil}, 3, 80, 30000},
-		{"suspend-user", config{[][]pmsg{{mS, mR}, {u(11)}}, nil}, 3, 80, 30000},
-		{"2x2", config{[][]pmsg{{u(1), u(2)}, {u(11), u(12)}}, nil}, 2, 100, 40000},
-		{"2x2+sys+pause", config{[][]pmsg{{u(1), o(2)}, {u(11), u(12)}}, []bool{F, F, F, T}}, 2, 100, 30000},
+		{"1x1", config{[][]pmsg{{u(1)}}, nil, 99}, -1, 80, 1000},
+		{"1x2", config{[][]pmsg{{u(1), u(2)}}, nil, 99}, -1, 80, 60000},
+		{"1xsys", config{[][]pmsg{{o(1), u(2)}}, nil, 99}, -1, 80, 30000},
+		{"2x1", config{[][]pmsg{{u(1)}, {u(11)}}, nil, 99}, 3, 80, 30000},
+		{"2x1-sys", config{[][]pmsg{{o(1)}, {u(11)}}, nil, 99}, 3, 80, 30000},
+		{"2xsys", config{[][]pmsg{{o(1)}, {o(11)}}, nil, 99}, 3, 80, 30000},
+		{"1x2+pause", config{[][]pmsg{{u(1), u(2)}}, []bool{F, F, T}, 99}, 3, 80, 20000},
+		{"1x1+pause-first", config{[][]pmsg{{u(1), u(2)}}, []bool{T}, 99}, 3, 80, 20000},
+		{"2x1+pause", config{[][]pmsg{{u(1)}, {u(11)}}, []bool{F, T}, 99}, 2, 80, 20000},
+		{"suspend-resume", config{[][]pmsg{{mS, u(1)}, {mR}}, nil, 99}, 3, 80, 30000},
+		{"suspend-user", config{[][]pmsg{{mS, mR}, {u(11)}}, nil, 99}, 3, 80, 30000},
+		{"2x2", config{[][]pmsg{{u(1), u(2)}, {u(11), u(12)}}, nil, 99}, 2, 100, 40000},
+		{"2x2+sys+pause", config{[][]pmsg{{u(1), o(2)}, {u(11), u(12)}}, []bool{F, F, F, T}, 99}, 2, 100, 30000},
+		{"1x3-throughput0", config{[][]pmsg{{u(1), u(2), u(3)}}, nil, 0}, 3, 80, 20000},
+		{"2x2-throughput1", config{[][]pmsg{{u(1), u(2)}, {u(11), u(12)}}, nil, 1}, 2, 100, 20000},
+		{"1x4+sys-throughput2", config{[][]pmsg{{u(1), o(2), u(3), u(4)}}, nil, 2}, 2, 100, 20000},
 	}
 }
 
@@ -449,6 +473,36 @@ func Run(cfg *hx.Config) error {
 			time.Since(t0).Seconds())
 	}
 	r := cfg.Rng
+	// backlogs: every poster posts everything before the consumer takes its first step, so ONE
+	// run handles more messages than the dispatcher's Throughput() (99, as the service dispatcher
+	// answers; and small values)
+	nb := 2
+	if cfg.Tier == "thorough" {
+		nb = 12
+	}
+	for i := 0; i < nb; i++ {
+		var conf config
+		conf.throughput = 99
+		n := 101 + r.Intn(40)
+		if i%2 == 1 {
+			conf.throughput = 3 + r.Intn(10)
+			n = 3*conf.throughput + r.Intn(20)
+		}
+		np := 1 + i%2
+		for p := 0; p < np; p++ {
+			var prog []pmsg
+			for k := 0; k < n/np+1; k++ {
+				if r.Intn(15) == 0 {
+					prog = append(prog, pmsg{'O', int64(p*1000 + k)})
+				} else {
+					prog = append(prog, pmsg{'U', int64(p*1000 + k)})
+				}
+			}
+			conf.progs = append(conf.progs, prog)
+		}
+		res := execute(conf, withProbe(postersFirst()))
+		emit("backlog", conf, res, "backlog-over-throughput")
+	}
 	for i := 0; i < cfg.N; i++ {
 		conf, ctags := genConfig(r)
 		pol, pname := genPolicy(r, len(conf.progs))
